@@ -493,6 +493,34 @@ def analyse_seal(tree, cls_name):
   return {'shortCircuit': short, 'recurses': recurse, 'setsOwn': sup}
 
 
+def ctor_seals_deep(tree, cls_name):
+  """`<cls>.__init__` ends its work with `if sealed: self.seal(True)` (the deep `seal`, not the shallow
+  `sym_seal`)."""
+  fn = common.find_func(common.find_class(tree, cls_name), '__init__')
+  found = None
+  for n in ast.walk(fn):
+    if isinstance(n, ast.If) and _is_name(n.test, 'sealed') and not n.orelse:
+      for b in n.body:
+        if (isinstance(b, ast.Expr) and isinstance(b.value, ast.Call) and isinstance(b.value.func, ast.Attribute)
+            and _is_name(b.value.func.value, 'self') and b.value.func.attr in ('seal', 'sym_seal')):
+          found = b.value.func.attr
+  if found is None:
+    raise TranslatorError(f'{cls_name}.__init__: `if sealed: self.seal(True)` not found')
+  return found == 'seal'
+
+
+def object_attrs_built_sealed(tree):
+  """`Object.__init__` builds its attribute container with `pg_dict.Dict(..., sealed=sealed, ...)`: then the
+  Dict constructor already seals everything below the object, and the closing call only has to set the
+  object's own flag (`seal` and `sym_seal` do)."""
+  fn = common.find_func(common.find_class(tree, 'Object'), '__init__')
+  for n in ast.walk(fn):
+    if (isinstance(n, ast.Call) and isinstance(n.func, ast.Attribute) and n.func.attr == 'Dict'
+        and any(k.arg == 'sealed' and _is_name(k.value, 'sealed') for k in n.keywords)):
+      return True
+  return False
+
+
 def run():
   # 1. closed lists vs. the running builtins
   lm = builtin_mutators(list, lambda: [3, 1, 2])
@@ -539,6 +567,8 @@ def run():
   if len({seals['List']['shortCircuit'], seals['Dict']['shortCircuit']}) != 1:
     raise TranslatorError('List.seal and Dict.seal differ in their short-circuit; the model has one switch')
 
+  ctor_deep = (ctor_seals_deep(ltree, 'List') and ctor_seals_deep(dtree, 'Dict')
+               and (ctor_seals_deep(otree, 'Object') or object_attrs_built_sealed(otree)))
   known = common.known_exceptions('C08', 'unguarded')
 
   L = []
@@ -565,6 +595,11 @@ def run():
   L.append('value (without visiting the children)? -/')
   L.append(f'def genSealShortCircuit : Bool := {common.lean_bool(seals["Dict"]["shortCircuit"])}')
   L.append('')
+  L.append('/-- `sealed=True` at construction (also: a class with allow_symbolic_mutation = False) runs the deep')
+  L.append('`seal(True)` in the constructors of List and Dict; the constructor of Object sets its own flag and')
+  L.append('either runs the deep seal too or builds its attribute Dict with `sealed=sealed`. -/')
+  L.append(f'def genCtorSealsDeep : Bool := {common.lean_bool(ctor_deep)}')
+  L.append('')
   L.append('/-- Static exception list, from the findings files (never from the source). -/')
   L.append('def knownUnguarded : List EP := [' + ', '.join('.' + e for e in known if e in ALL_EPS) + ']')
   L.append('')
@@ -574,7 +609,7 @@ def run():
       'sources': {p: common.sha(p) for p in (LIST_PY, DICT_PY, OBJECT_PY, BASE_PY)},
       'builtin_list_mutators': sorted(lm), 'builtin_dict_mutators': sorted(dm),
       'table': {ep: {k: v for k, v in table[ep].items()} for ep in ALL_EPS},
-      'predicates': preds, 'seal': seals,
+      'predicates': preds, 'seal': seals, 'ctor_seals_deep': ctor_deep,
   }
   changed = common.write_gen('C08Guards', '\n'.join(L), sidecar)
   return {'changed': changed, 'sidecar': sidecar}
